@@ -29,7 +29,7 @@ def run_det(ctx, seed, n, runs, subsets, race_runs):
 def run(ctx):
     failures = vlib.proof_stage(ctx, "theories/Props/C06.v", ["theories/Oblig/O06.v"])
     quick = ctx.tier == "quick"
-    rounds = [(12, 8, 9, 3)] * (2 if quick else 40)
+    rounds = [(12, 8, 11, 3)] * (2 if quick else 40)
     tot = {"packages": 0, "runs": 0, "subsets": 0, "race_runs": 0}
     for i, (n, runs, subs, rr) in enumerate(rounds):
         cmd, mism, st = run_det(ctx, ctx.seed * 100 + i, n, runs, subs, rr)
@@ -53,7 +53,7 @@ def run(ctx):
         "evaluations": tot["runs"] + tot["subsets"] + tot["race_runs"], "distinct_nontrivial": tot["packages"],
         "rule": "a round is one scratch module of 12 generated packages (6 functions each, constants, structs, methods; declarations randomly permuted and split over "
                 "1-3 files so that single declarations have several not-yet-emitted dependencies; every third package contains out-of-subset statements and fails with "
-                "conversion errors); the module is translated 8 times under GOMAXPROCS 1/2/4/16, then 8 subsets (single packages and random selections) are translated on "
+                "conversion errors); the module is translated 8 times under GOMAXPROCS 1/2/4/16, then 11 subsets (single packages, among them each FFI package, two packages of the same name with different FFIs, packages with struct-valued and interface-typed call arguments and random selections) are translated on "
                 "their own; every written file must be byte-identical to the reference run's and every error report must occur in the reference run's stderr; a race-detector "
                 "build of cmd/goose translates the module 3 times. evaluations = translations performed",
         "samples": [], "race_detector_runs": tot["race_runs"],
